@@ -557,13 +557,20 @@ func drawHostile(t *rapid.T, nUE, nBits int) *nalgen.Hostile {
 		case k == 7: // moderately large: passes sanity limits that stop 2^31, still far too many elements
 			h.UEValue = uint64(1)<<uint(rapid.IntRange(8, 30).Draw(t, "hz-ue-pow")) + uint64(rapid.IntRange(0, 2).Draw(t, "hz-ue-off")) - 1
 		case k == 8:
-			h.UEValue = rapid.SampledFrom([]uint64{31, 32, 63, 64, 255, 256, 1000, 4096, 65534}).Draw(t, "hz-ue-small")
+			// small values: limits of tables, and values that make a byte-typed "x + 8" / "x + 4" / "x + 1" wrap
+			h.UEValue = rapid.SampledFrom([]uint64{31, 32, 63, 64, 247, 248, 249, 251, 252, 254, 255, 256, 1000, 4096, 65534}).Draw(t, "hz-ue-small")
 		case k == 9: // code numbers no conforming stream contains
 			h.UEValue = rapid.SampledFrom([]uint64{1<<32 - 1, 1 << 32, 1 << 33, 1<<63 - 1}).Draw(t, "hz-ue-illegal")
 		default: // over-long codeword
 			h.UEPrefixZeros = rapid.SampledFrom([]int{32, 33, 40, 63, 64, 65, 100, 200}).Draw(t, "hz-ue-prefix")
 			h.UEValue = rapid.Uint64().Draw(t, "hz-ue-suffix")
 		}
+	}
+	if replace && nUE > 1 && uniform(t, 3, "hz-ue2") == 0 {
+		// a second hostile value somewhere else (two cooperating fields: a width and a count, two dimensions ...)
+		h.ReplaceUE2 = true
+		h.UEIndex2 = uniform(t, nUE, "hz-ue2-index")
+		h.UEValue2 = rapid.SampledFrom([]uint64{0, 1, 7, 8, 15, 16, 31, 32, 60, 61, 63, 64, 247, 248, 252, 255, 256, 4095, 65535, 1 << 20, 1 << 24, 1<<31 - 1, 1<<32 - 2}).Draw(t, "hz-ue2-value")
 	}
 	if trunc && nBits > 1 {
 		h.TruncateBits = rapid.IntRange(1, nBits-1).Draw(t, "hz-truncate")
